@@ -129,8 +129,17 @@ func (g *G) nodeOfKind(k spec.Kind, depth int) *spec.Node {
 		n.ExtraFields = []spec.ExtraField{{GoName: "XUntouchedS", Type: reflect.TypeOf("")}, {GoName: "XUntouchedI", Type: reflect.TypeOf(0)}}
 		if g.O.StructTests && g.pct(6) {
 			n.ViaMerge = true
-			for i := 0; i < g.R.Range(1, 4); i++ {
+			nt := g.R.Range(1, 4)
+			if g.pct(50) {
+				nt = g.R.Range(4, 9)
+			}
+			for i := 0; i < nt; i++ {
 				n.Tests = append(n.Tests, g.fixedTest(fmt.Sprintf("mt%d", i)))
+			}
+			if g.O.Posts && g.pct(50) {
+				for i := 0; i < g.R.Range(3, 8); i++ {
+					n.Posts = append(n.Posts, spec.Post{Name: fmt.Sprintf("mnoop%d", i)})
+				}
 			}
 		} else if g.O.StructTests && g.pct(25) {
 			nt := g.R.Range(1, 2)
@@ -139,6 +148,9 @@ func (g *G) nodeOfKind(k spec.Kind, depth int) *spec.Node {
 			}
 		}
 		g.posts(n)
+		if n.ViaMerge {
+			g.mergeCuts(n)
+		}
 	case spec.Ptr:
 		n.Elem = g.node(depth + 1)
 		for n.Elem.Kind == spec.Pre || (g.O.NoPtrPtr && n.Elem.Kind == spec.Ptr) {
@@ -203,6 +215,40 @@ func (g *G) testOpts(forRequired bool) spec.TestOpts {
 		o.Order = g.R.Perm(5)
 	}
 	return o
+}
+
+// mergeCuts chooses where the lists of a Merge-assembled struct are cut. Half of the time the first operand gets a list
+// length that leaves spare capacity in its backing array (3, 5, 6, 7 appends) and the next operand fits into that room.
+func (g *G) mergeCuts(n *spec.Node) {
+	n.MergeTwo = g.pct(40)
+	cut := func(l int) [2]int {
+		a, b := 0, 0
+		if l > 0 {
+			a = g.R.Intn(l + 1)
+			b = g.R.Range(a, l)
+		}
+		if g.pct(50) {
+			room := map[int]int{3: 1, 5: 3, 6: 2, 7: 1}
+			for _, c := range []int{7, 6, 5, 3} {
+				if c < l && g.pct(60) {
+					a = c
+					b = a + g.R.Range(1, room[c])
+					if b > l {
+						b = l
+					}
+					if g.pct(50) && l-a <= room[c] {
+						b = l // nothing left for the third operand
+					}
+					break
+				}
+			}
+		}
+		if n.MergeTwo {
+			b = l
+		}
+		return [2]int{a, b}
+	}
+	n.MergeCuts = [3][2]int{cut(len(n.Fields)), cut(len(n.Tests)), cut(len(n.Posts))}
 }
 
 func (g *G) posts(n *spec.Node) {
